@@ -93,4 +93,7 @@ def Err.name : Err → String
   | .value => "value" | .index => "index" | .type => "type" | .runtime => "runtime"
   | .notImplemented => "notimpl" | .overflow => "overflow" | .internal => "internal" | .hang => "hang"
 
+-- equality of results is decidable (shared by several models; declared once, here)
+deriving instance DecidableEq for Except
+
 end SparseV
